@@ -447,12 +447,35 @@ extracted program computes the model's decision table for ALL inputs — so a ma
 deferred marker is installed BEFORE the request runs, the request runs once, `succ` is set iff `acceptable(err)`,
 the marker fires on return and on unwinding alike, the request's error is returned). -/
 theorem tie_progDoReq (v : Verdict) (e : Entry) (o : Outcome) :
-    Prog.runDoReq progDoReq v e o = some (doReqEvents v e o) := by
+    Prog.runDoReq progAccept progDoReq v e o = some (doReqEvents v e o) := by
   rcases e with ⟨hf, cu⟩
   cases v <;> cases hf <;> cases cu <;> cases o <;> decide
 
+/-- the path through `accept()` from the three decisions as Booleans -/
+def pathOfBools (throttled forced drawLess : Bool) : Path :=
+  if !throttled then .free else if forced then .forced else if drawLess then .drawnDrop else .drawnPass
+
+theorem acceptPath_eq_pathOfBools (lastPass now : Nat) (throttled drawLess : Bool) :
+    acceptPath lastPass now throttled drawLess
+      = pathOfBools throttled (decide (lastPass > 0 ∧ now - lastPass > forcePassNs)) drawLess := by
+  unfold acceptPath pathOfBools
+  cases throttled <;> cases drawLess <;> by_cases h : lastPass > 0 ∧ now - lastPass > forcePassNs <;> simp [h]
+
+/-- **`accept()` as extracted, for every value of its three decisions**: the verdict, WHERE `lastPass` is set (exactly
+once on the forced probe and on the drawn admission, never on a free pass and never on a rejection) and whether a draw
+is consumed (exactly on the two drawn paths) are those of the model's `Path` — the order of the tests included. -/
+theorem tie_progAccept (throttled forced drawLess : Bool) :
+    Prog.runAccept progAccept throttled forced drawLess
+      = some ((pathOfBools throttled forced drawLess).verdict,
+              (if (pathOfBools throttled forced drawLess).setsLastPass then 1 else 0),
+              (if (pathOfBools throttled forced drawLess).draws then 1 else 0)) := by
+  cases throttled <;> cases forced <;> cases drawLess <;> decide
+
+/-- `accept()` itself records nothing, on any path: no marker call occurs in its body -/
+theorem tie_acceptRecordsNothing : Prog.marksIn progAccept = [] := by decide
+
 /-- `googleBreaker.allow`: rejected → markDrop and `(nil, err)`; admitted → a promise, nothing recorded yet. -/
-theorem tie_progAllow (v : Verdict) : Prog.runAllow progAllow v = some (allowEvents v) := by
+theorem tie_progAllow (v : Verdict) : Prog.runAllow progAccept progAllow v = some (allowEvents v) := by
   cases v <;> decide
 
 /-- the decision table of the rest handler over (verdict, does `next` unwind, value of the deferred condition) -/
@@ -462,7 +485,7 @@ def restTable (v : Verdict) (unwinds accept : Bool) : List SEv :=
   | .pass => [.ranReq, .mark (if accept then .succ else .fail), if unwinds then .repanicked else .returned .same]
 
 theorem tie_progRestHandler_table (v : Verdict) (unwinds accept : Bool) :
-    Prog.runRest progRestHandler v unwinds accept = some (restTable v unwinds accept) := by
+    Prog.runRest progAccept progRestHandler v unwinds accept = some (restTable v unwinds accept) := by
   cases v <;> cases unwinds <;> cases accept <;> decide
 
 /-- **`BreakerHandler`'s handler closure, every verdict and every request**: running the extracted program with the
@@ -470,11 +493,32 @@ extracted comparison `cw.Code < http.StatusInternalServerError` applied to the c
 `siteEvents .rest`: rejected → 503 written, `next` not served; admitted → the deferred resolver is installed before
 `next` is served WITH THE WRAPPER, and resolves the promise exactly once — on return and on unwinding. -/
 theorem tie_progRestHandler (v : Verdict) (q : SiteReq) :
-    Prog.runRest progRestHandler v q.panics (restAcceptCond q.code 500) = some (siteEvents .rest v q) := by
+    Prog.runRest progAccept progRestHandler v q.panics (restAcceptCond q.code 500) = some (siteEvents .rest v q) := by
   rw [tie_progRestHandler_table]
   have hc : restAcceptCond q.code 500 = Site.rest.pred q := by
     rw [tie_restAcceptCond]; simp [Site.pred]
   rw [hc]
   cases v <;> simp [restTable, siteEvents, Site.rejectRet]
+
+/-- **every rejection is recorded exactly once, at every entry point, by the code as extracted**: running the
+extracted `accept` + `doReq` (all four `Do*` entry points, every request outcome), `accept` + `allow` (`Allow`), and
+`accept` + `allow` + the rest handler on a rejecting verdict records exactly one drop — not zero (a caller that
+forgets `markDrop`) and not two (`accept()` marking on its own as well as its caller). -/
+theorem tie_rejection_recorded_once (e : Entry) (o : Outcome) (unwinds accept : Bool) :
+    (Prog.runDoReq progAccept progDoReq .reject e o).map marksOf = some [.drop]
+    ∧ (Prog.runAllow progAccept progAllow .reject).map marksOf = some [.drop]
+    ∧ (Prog.runRest progAccept progRestHandler .reject unwinds accept).map smarksOf = some [.drop] := by
+  rw [tie_progDoReq, tie_progAllow, tie_progRestHandler_table]
+  rcases e with ⟨hf, cu⟩
+  cases hf <;> simp [doReqEvents, allowEvents, restTable, marksOf, smarksOf]
+
+/-- and an admission records nothing before the request / the promise is resolved: exactly one success-or-failure
+mark per admitted `Do*` call, none for an admitted `Allow` -/
+theorem tie_admission_recorded_once (e : Entry) (o : Outcome) :
+    (Prog.runDoReq progAccept progDoReq .pass e o).map (fun evs => (marksOf evs).length) = some 1
+    ∧ (Prog.runAllow progAccept progAllow .pass).map marksOf = some [] := by
+  rw [tie_progDoReq, tie_progAllow]
+  rcases e with ⟨hf, cu⟩
+  cases o <;> simp [doReqEvents, allowEvents, marksOf]
 
 end GoZero.C01.Tie
